@@ -102,7 +102,7 @@ def run(chk):
     avail = Intermediates().available
     g = gen.Gen(chk.seed, spaces="ov", numbered_prob=0.05)
     pool = ORACLE + MISC
-    n_cases = 16 if quick else 300
+    n_cases = 16 if quick else 120
 
     def emit(pre, post, key, what, tsyms):
         try:
